@@ -47,6 +47,20 @@ from vlib.shapes import inject_shapes  # noqa: E402,F401
 
 
 TEMPLATES = [
+    # ite over one and zero of one bit and of more bits (bvcomp has one bit)
+    '''(declare-const a (_ BitVec 8))
+(declare-const b (_ BitVec 8))
+(declare-const r (_ BitVec 8))
+(declare-const s (_ BitVec 2))
+(declare-const o (_ BitVec 1))
+(assert (= o (ite (= a b) #b1 #b0)))
+(assert (= o (ite (= a b) (_ bv1 1) (_ bv0 1))))
+(assert (= r (ite (= a b) #x01 #x00)))
+(assert (= r (ite (= a b) (_ bv1 8) (_ bv0 8))))
+(assert (= s (ite (= a b) #b01 #b00)))
+(assert (= s (ite (= r b) #b01 (_ bv0 2))))
+(assert (= o (ite (= a b) #b0 #b1)))
+''',
     # defined functions whose actual arguments mention formal parameter names
     '''(declare-const k Int)
 (define-fun f ((a Int) (b Int)) Int (- (* a 2) b))
